@@ -435,3 +435,78 @@ def find_index_helpers(prog):
             names = [p["name"] for p in F.params]
             out[F.name] = (names.index(pn) + 1, names.index(cn) + 1)
     return out
+
+
+# ------------------------------------------------------------------ shift amounts
+
+def _type_width(ct):
+    ct = (ct or "").replace("const ", "").strip()
+    if ct in ("long", "unsigned long", "long long", "unsigned long long", "long int", "unsigned long int"):
+        return 64
+    if ct in ("int", "unsigned int", "unsigned", "_Bool", "short", "unsigned short", "char", "unsigned char", "signed char"):
+        return 32          # promoted to int
+    return None
+
+
+def _conjuncts(c):
+    c = strip(c)
+    if c["k"] == "BinaryOperator" and c["op"] == "&&":
+        return _conjuncts(c["c"][0]) + _conjuncts(c["c"][1])
+    return [c]
+
+
+def shift_amount_bound(F, node, env_consts):
+    """largest value the right operand of a shift can take, or None when this analysis cannot tell"""
+    r = strip(node["c"][1])
+    if isinstance(r.get("val"), int):
+        return r["val"]
+    if r["k"] == "BinaryOperator" and r["op"] == "%":
+        d = strip(r["c"][1])
+        if isinstance(d.get("val"), int) and d["val"] > 0:
+            return d["val"] - 1
+    if r["k"] != "DeclRefExpr":
+        return None
+    v = r["name"]
+    best = None
+    child = node
+    for a in F.ancestors(node):
+        cond = None
+        if a["k"] == "IfStmt" and child["id"] in {x["id"] for x in walk_nodes(F.nodes[a["then"]])}:
+            cond = F.nodes[a["cond"]]
+        elif a["k"] == "ForStmt" and a.get("cond") is not None and child["id"] in {x["id"] for x in walk_nodes(F.nodes[a["body"]])}:
+            cond = F.nodes[a["cond"]]
+        elif a["k"] == "ConditionalOperator" and len(a.get("c", [])) == 3 and child["id"] in {x["id"] for x in walk_nodes(a["c"][1])}:
+            cond = a["c"][0]
+        elif a["k"] == "BinaryOperator" and a["op"] == "&&" and child["id"] in {x["id"] for x in walk_nodes(a["c"][1])}:
+            cond = a["c"][0]
+        if cond is not None:
+            for c in _conjuncts(cond):
+                if c["k"] == "BinaryOperator" and c["op"] in ("<", "<=") and expr_str(strip(c["c"][0])) == v:
+                    rhs = strip(c["c"][1])
+                    if isinstance(rhs.get("val"), int):
+                        b = rhs["val"] - 1 if c["op"] == "<" else rhs["val"]
+                        best = b if best is None else min(best, b)
+        child = a
+    if best is None:
+        # an unguarded loop counter that only ever grows has no bound at all
+        for a in F.ancestors(node):
+            if a["k"] == "ForStmt" and a.get("init") is not None:
+                if any(x["k"] == "VarDecl" and x["name"] == v for x in walk_nodes(F.nodes[a["init"]])):
+                    return "unbounded"
+    return best
+
+
+def check_shifts(prog, F, report):
+    n = 0
+    for node in F.walk():
+        if node["k"] in ("BinaryOperator", "CompoundAssignOperator") and node.get("op") in ("<<", ">>", "<<=", ">>="):
+            w = _type_width(node.get("ct") or node.get("t"))
+            if w is None:
+                continue
+            b = shift_amount_bound(F, node, {})
+            if b is None:
+                report(node, None, {"why": "shift amount not bounded by this analysis"})
+                continue
+            n += 1
+            report(node, b != "unbounded" and 0 <= b < w, {"operand_width": w, "largest_shift": b, "expression": expr_str(node)[:60]})
+    return n
